@@ -126,6 +126,11 @@ def run(ctx):
     vecs = sorted(r.vecs, key=lambda v: canon(v["forms"]))
     if not vecs:
         raise ToolError("no vectors")
+    # which error is raised is not C11's claim ("raise an error rather than return a value"): classification is C08's
+    for v in vecs:
+        for res in v["results"]:
+            if res["r"]["k"] == "error":
+                res["r"]["kind"] = "AnyError"
     M.replay_vectors(ctx, vecs, sigs_fn)
     for v in vecs:
         ctx.nontrivial_key(v["forms"])
@@ -135,7 +140,7 @@ def run(ctx):
     rng = random.Random(ctx.seed)
     n = 400 if tier == "quick" else 6000
     progs = [G.list_program(rng) for _ in range(n)]
-    mism, results = M.validate_programs(ctx, progs, "validate")
+    mism, results = M.validate_programs(ctx, progs, "validate", anykind=True)
     M.report_mismatches(ctx, progs, mism, sigs_fn)
     for p in progs:
         ctx.nontrivial_key(p)
